@@ -221,6 +221,24 @@ func rangeGuardOnPaths(c *Ctx, lt *types.Named, fn *ssa.Function, idxParams []*s
 	// Insert and Set document position == size as valid (append): a path that knows 0 <= i <= size may write, and may use
 	// the index as a slice bound (slicing at the length is legal) — not as an element position
 	appendOK := fnName(fn) == "Insert" || fnName(fn) == "Set"
+	// a linked list that lets position == size into its splicing paths (instead of handing it to Add) is extending its tail
+	// there: some path must then move `last` (the generic splice of an in-range position never does)
+	inclusiveSplice, storesLast, hasLast := false, false, false
+	if rn := recvNamed(fn); rn != nil {
+		hasLast = hasFieldNamed(rn, "last")
+	}
+	for _, g0 := range gc.GCs {
+		for _, ef := range g0.Effects {
+			if isStore(ef) && ef.Args[0].Op == "fa" && ef.Args[0].Leaf == "last" && len(ef.Args[0].Args) == 1 && ef.Args[0].Args[0].String() == "p:0" {
+				storesLast = true
+			}
+		}
+	}
+	defer func() {
+		if hasLast && inclusiveSplice && !storesLast {
+			okB = false
+		}
+	}()
 	for _, g0 := range gc.GCs {
 		guards := append(append([]*Term(nil), g0.Guards...), entryKnowledge(gc, g0.From, 0)...)
 		allIn := true
@@ -259,6 +277,12 @@ func rangeGuardOnPaths(c *Ctx, lt *types.Named, fn *ssa.Function, idxParams []*s
 			if !in {
 				if !inclusive {
 					allIn = false
+				} else {
+					for _, ef := range g0.Effects {
+						if isStore(ef) && ef.Args[0].Op == "fa" && (ef.Args[0].Leaf == "next" || ef.Args[0].Leaf == "first") {
+							inclusiveSplice = true
+						}
+					}
 				}
 				// R5a: the index must not be used as a position on this path
 				used := false
